@@ -5,8 +5,9 @@ import ArrowModel.C07.Model
 C07 driver: one case per line → one canonical answer per line.  Answers come from the
 *algorithm model*; the specification (bounds under the column's intended order) is
 evaluated next to it and `MODEL-SPEC-MISMATCH` is printed when the model's statistics do
-not satisfy it (the theorems say this cannot happen for a total order; it does happen for
-`compare_greater_byte_array_decimals` on operands of unequal length).
+not satisfy it (the theorems say this cannot happen for the comparison itself; it does
+happen where BYTE_ARRAY decimal bounds are byte-truncated and where the boundary order is
+declared on truncated column-index lists — known findings).
 -/
 namespace ArrowModel.C07
 open ArrowModel.Proto
